@@ -102,13 +102,15 @@ Section Cfg.
     | _ => set_st d1 next
     end.
 
-  (* DispatcherMessage::Error(res): send_error_response(res, BoxBody::new(())); size of () = Sized(0) *)
+  (* poll_response with State::None: pop the queue until a request is dispatched.
+     DispatcherMessage::Error(res): send_error_response(res, BoxBody::new(())); size of () = Sized(0) *)
   Fixpoint settle (fuel : nat) (d : dstate) : dstate :=
     match fuel with
     | O => d
     | S f => match d_st d, d_msgs d with
              | SNone, MError s :: rest =>
                  settle f (send_response (set_msgs d rest) None (mkResp s None false []) (BSized 0) SNone)
+             | SNone, MItem j :: rest => dispatch (set_msgs d rest) j
              | _, _ => d
              end
     end.
@@ -190,10 +192,11 @@ Section Cfg.
             | SNone => dispatch d1 j
             | _ => set_msgs d1 (d_msgs d1 ++ [MItem j])
             end
-        | EvBad => settle 2 (set_msgs d (d_msgs d ++ [MError 400]))
+        | EvBad => settle (S (S (length (d_msgs d)))) (set_msgs d (d_msgs d ++ [MError 400]))
         | EvTick =>
             let d1 := tick (length (d_msgs d) + 4)%nat d in
-            match d_fail d1 with Some _ => d1 | None => settle (S (length (d_msgs d1))) d1 end
+            (* after an error the state stays SendPayload, so this is the identity then *)
+            settle (S (length (d_msgs d1))) d1
         | EvFlush k => flush d k
         end
     end.
